@@ -297,7 +297,11 @@ REGISTRY = {
         "(depth, attributes, mixed text, special characters) sampled by gamma and compared by digest"]),
     "C05": merge_property(lambda t: fam(t, story=STORY, item=ITEM, theorems=()), A_COMMON + [
         "a step whose status is not ok must leave the abstract state AND str(ro) unchanged"]),
-    "C06": merge_property(lambda t: fam(t, story=STORY, item=ITEM, theorems=()), A_COMMON + [
+    "C06": merge_property(lambda t: fam(t, story=STORY, item=ITEM, theorems=()) + [
+        # containers that hold an id twice (outside the premise of C01-C05): deletes, judged by `acted_upon` only
+        ("storydup", ["StoryDelete", "EAStoryDelete"], dict(Q_STORY if t == "quick" else T_STORY, Layouts=["dup"]), t != "quick"),
+        ("itemdup", ["ItemDelete", "EAItemDelete"], dict(Q_ITEM if t == "quick" else T_ITEM, ILayouts=["dup"]), t != "quick")],
+        A_COMMON + [
         "warnings = MosRoMgrWarning subclasses recorded with simplefilter('always')"]),
     "C08": c08,
     "C09": coll_property(("coll_steps", "coll_fold"), step_props=("C09",)),
